@@ -912,6 +912,10 @@ class FuncBitShiftLeft(ValueFunc):
     def execute(self, args, environment, pos):
         a = args.getInt("a").value
         n = args.getInt("n").value
+        if n < 0:
+            raise CklRuntimeError(
+                ValueString("ERROR"), "Negative shift count", pos
+            )
         return ValueInt((a << n) & 0xFFFFFFFF)
 
 
@@ -936,6 +940,10 @@ class FuncBitShiftRight(ValueFunc):
     def execute(self, args, environment, pos):
         a = args.getInt("a").value
         n = args.getInt("n").value
+        if n < 0:
+            raise CklRuntimeError(
+                ValueString("ERROR"), "Negative shift count", pos
+            )
         return ValueInt(a >> n)
 
 
